@@ -123,6 +123,7 @@ type hsServer struct {
 	Header       string
 	Reject       int // 0 none 1 OnHost 2 OnHeader 3 OnRequest 4 OnBeforeUpgrade
 	RejectStatus int
+	RejectBare   bool // the rejection carries a status only: no reason, no header
 	BeforeHeader string
 	RBuf, WBuf   int
 	Trailing     []byte
@@ -232,6 +233,7 @@ func drawHS(r *eng.Run) (hsClient, hsServer) {
 	if s.Kind != 1 && r.T.Chance(sim.LFault, 1, 6) {
 		s.Reject = 1 + r.T.Int(sim.LFault, 4)
 		s.RejectStatus = []int{0, 400, 401, 403, 500, 503}[r.T.Int(sim.LFault, 6)]
+		s.RejectBare = s.RejectStatus != 0 && r.T.Chance(sim.LFault, 1, 3)
 	}
 	if s.Kind != 1 && s.Reject == 0 && r.T.Chance(sim.LCfg, 1, 4) {
 		s.BeforeHeader = "X-Before: upgrade\r\n"
@@ -358,6 +360,9 @@ func inSet(set []string, v string) bool {
 func (s hsServer) rejectErr() error {
 	if s.RejectStatus == 0 {
 		return errors.New("sim: rejected by callback")
+	}
+	if s.RejectBare {
+		return ws.RejectConnectionError(ws.RejectionStatus(s.RejectStatus))
 	}
 	return ws.RejectConnectionError(ws.RejectionStatus(s.RejectStatus), ws.RejectionReason("sim: rejected with status"),
 		ws.RejectionHeader(ws.HandshakeHeaderString("X-Rejected: yes\r\n")))
@@ -819,10 +824,53 @@ func roundTripTasks(r *eng.Run, c hsClient, s hsServer, rseed int64) (cl, sv *hs
 		}
 	}
 	r.Res.Probes["task_switches"] += sch.Switches()
+	// (Not when the application's own OnStatusError callback reads the
+	// response reader to its end: on a connection that stays open that waits
+	// for the peer to close, by the harness's own doing.)
+	if sch.Deadlocks() > sch.Mutual() && !c.StatusCb {
+		// One peer had returned, the other was still waiting for bytes nobody
+		// was going to send (the connection stays open after a handshake,
+		// accepted or refused).
+		r.Failf("handshake_peer_left_waiting", "as two tasks on a connection that stays open: one peer had returned from its handshake, the other was still waiting for input (client returned=%v, server returned=%v)\n  %s\n  %s", cl != nil, sv != nil, c, s)
+	}
 	if sch.Mutual() > 0 {
 		r.Failf("handshake_peers_wait_for_each_other", "as two tasks on a connection that stays open, dialer and upgrader both ended up waiting for the other (neither had returned)\n  %s\n  %s", c, s)
 	}
 	return cl, sv
+}
+
+// rawClientTasks runs the upgrader of s as a task against a scripted client
+// that writes req and then reads until the end of a response head. waiting
+// reports that a task had to be woken by closing the connection.
+func rawClientTasks(r *eng.Run, req []byte, s hsServer) (sv *hsOutcome, waiting bool) {
+	sch, err := multi.NewSched(r.T, []int{0, 1, 9}[r.T.Int(sim.LSched, 3)])
+	if err != nil {
+		r.Internalf("scheduler: %v", err)
+	}
+	cc, sc := sch.Pipe(r.T.Int(sim.LSegMode, 3))
+	srec := &recConn{Conn: sc}
+	var spanic interface{}
+	sch.Go(func() {
+		cc.Write(req)
+		var head []byte
+		buf := make([]byte, 256)
+		for !bytes.Contains(head, []byte("\r\n\r\n")) {
+			n, err := cc.Read(buf)
+			head = append(head, buf[:n]...)
+			if err != nil {
+				return
+			}
+		}
+	})
+	sch.Go(func() {
+		defer func() { spanic = recover() }()
+		sv = runServerConn(r, s, srec, func() []byte { return srec.written }, func() bool { return true })
+	})
+	sch.Run()
+	if spanic != nil {
+		panic(spanic)
+	}
+	return sv, sch.Deadlocks() > 0
 }
 
 // expectedProtocol derives the subprotocol both sides must report.
@@ -1088,6 +1136,30 @@ func C11(r *eng.Run) {
 		if errStr(plain.Err) != errStr(t.Server.Err) || plain.Protocol != t.Server.Protocol || !sameStrings(extStrings(plain.Exts), extStrings(t.Server.Exts)) || !bytes.Equal(plain.Head, t.Server.Head) {
 			r.Failf("debug_upgrader_changes_outcome", "ws.Upgrader alone: %s (%d bytes written); through DebugUpgrader: %s (%d bytes written)\n  %s\n  %s",
 				plain.summary(), len(plain.Head), t.Server.summary(), len(t.Server.Head), c, s)
+		}
+	}
+	// The same request with bare LF line ends (RFC 7230 §3.5 lets a recipient
+	// accept them; whatever the upgrader does with it, the wrapper does too).
+	if s.Kind == 2 && r.T.Chance(sim.LCfg, 1, 2) {
+		lf := bytes.ReplaceAll(t.Request, []byte("\r\n"), []byte("\n"))
+		sp := s
+		sp.Kind = 0
+		plain := runServer(r, sp, pipeFor(r, lf, segS))
+		dbg := runServer(r, s, pipeFor(r, lf, segS))
+		if errStr(plain.Err) != errStr(dbg.Err) || plain.Protocol != dbg.Protocol || !sameStrings(extStrings(plain.Exts), extStrings(dbg.Exts)) || !bytes.Equal(plain.Head, dbg.Head) {
+			r.Failf("debug_upgrader_changes_outcome", "request with bare LF line ends: ws.Upgrader alone: %s (%d bytes written); through DebugUpgrader: %s (%d bytes written)\n  %s\n  %s",
+				plain.summary(), len(plain.Head), dbg.summary(), len(dbg.Head), c, s)
+		}
+		r.Probe("request_with_bare_lf_line_ends")
+		// And on a connection that stays open (a scripted client writes the
+		// request and waits for the response head): the wrapper, too, answers
+		// without waiting for more than the request.
+		if plain.Err == nil {
+			sv, waiting := rawClientTasks(r, lf, s)
+			if waiting || sv == nil || errStr(sv.Err) != errStr(plain.Err) {
+				r.Failf("debug_upgrader_changes_outcome", "request with bare LF line ends on a connection that stays open: ws.Upgrader alone: %s; DebugUpgrader: returned=%v, left waiting for input=%v\n  %s\n  %s",
+					plain.summary(), sv != nil, waiting, c, s)
+			}
 		}
 	}
 	// O2: the same peer on the same bytes with one segment and default buffers.
